@@ -637,13 +637,22 @@ def r_late_acquire(ctx):
     mgr = P.cls('ReplLockManager')
     ta = mgr.methods.get('tryAcquire')
     ctx.require(ta is not None, 'ReplLockManager.tryAcquire gone')
+    minit = mgr.methods.get('__init__')
+    mu = None
+    for n in ast.walk(minit.node):
+        if isinstance(n, ast.Assign) and isinstance(n.value, ast.Name) and n.value.id == minit.params[1] and P.self_attr(n.targets[0], minit.self_name):
+            mu = P.self_attr(n.targets[0], minit.self_name)
+    ctx.require(mu, 'ReplLockManager does not keep its auto-unlock time')
+
+    def mentions_unlock(e, m):
+        return any(P.self_attr(x, m.self_name) == mu for x in ast.walk(e))
     tests = []
     for n in ast.walk(ta.node):
         if isinstance(n, ast.If) and isinstance(n.test, ast.Compare) and len(n.test.ops) == 1:
             t = n.test
             sides = [t.left, t.comparators[0]]
             for i in (0, 1):
-                if isinstance(sides[i], ast.BinOp) and isinstance(sides[i].op, ast.Div) and any(isinstance(x, ast.Attribute) and 'nlock' in x.attr for x in ast.walk(sides[i])):
+                if isinstance(sides[i], ast.BinOp) and isinstance(sides[i].op, ast.Div) and mentions_unlock(sides[i], ta):
                     tests.append((n, sides[1 - i], sides[i], t.ops[0], i == 0))
     inst = 'late-acquire test present on the sync and the async path'
     ctx.tick()
@@ -690,7 +699,7 @@ def r_late_acquire(ctx):
     th = mgr.methods.get('_autoAcquireThread')
     if th is not None:
         for n in ast.walk(th.node):
-            if isinstance(n, ast.Compare) and any(isinstance(x, ast.Attribute) and 'nlock' in x.attr for x in ast.walk(n)):
+            if isinstance(n, ast.Compare) and mentions_unlock(n, th):
                 div = [x for x in ast.walk(n) if isinstance(x, ast.BinOp) and isinstance(x.op, ast.Div) and isinstance(x.right, ast.Constant)]
                 inst = 'locks are prolonged at least twice per auto-unlock period'
                 ctx.tick()
